@@ -256,6 +256,7 @@ func runC25(r *simkit.R) {
 	var resErr error
 	stage := ""
 	put := func() {
+		defer w.pvCatchPanic(c25Shape(pol, kind))
 		stream, err := w.svc.Put(ctx)
 		if err != nil {
 			resErr, stage = err, "put"
@@ -353,7 +354,15 @@ func runC25(r *simkit.R) {
 		r.Probe("caller's deadline expired during the PUT")
 	}
 
-	ok, why := c25Judge(pol, kind, partRule, partIdx, resID, acks)
+	attempted := make([]bool, len(pol.ec))
+	for _, rec := range w.recs {
+		if rs, _, ok := pvECInfo(&rec.obj); ok {
+			if ri, err := strconv.Atoi(rs); err == nil && ri >= 0 && ri < len(attempted) {
+				attempted[ri] = true
+			}
+		}
+	}
+	ok, why := c25Judge(pol, kind, partRule, partIdx, resID, acks, attempted)
 	switch {
 	case resErr == nil:
 		r.Probe("PUT reports full success")
@@ -389,6 +398,12 @@ func runC25(r *simkit.R) {
 func c25Sig(pol *c25Policy, kind int, why string) string {
 	s := "success reported, "
 	switch {
+	case strings.HasPrefix(why, "EC-twin-off"):
+		s += "a repeated EC rule was never attempted, its earlier twin is switched off by the initial policy"
+	case strings.HasPrefix(why, "EC-elsewhere") && strings.Contains(why, "repeats an earlier one"):
+		s += "all parts of a repeated EC rule stored, but outside its own node list"
+	case strings.HasPrefix(why, "EC-elsewhere"):
+		s += "all parts of an EC rule stored, but outside its own node list"
 	case strings.HasPrefix(why, "EC"):
 		s += "EC rule not fully stored on its own list"
 	case strings.HasPrefix(why, "total"):
@@ -398,18 +413,19 @@ func c25Sig(pol *c25Policy, kind int, why string) string {
 	default:
 		s += "REP rule short of acknowledged copies"
 	}
-	if pol.initial {
-		s += " [initial policy"
-		if pol.maxRep > 0 {
-			s += ", MaxReplicas"
-		}
-		if pol.prefer {
-			s += ", PreferLocal"
-		}
-		s += "]"
-	}
-	if len(pol.rep) > 0 && len(pol.ec) > 0 {
-		s += " [REP+EC policy]"
+	return s + " [" + c25Shape(pol, kind) + "]"
+}
+
+// c25Shape describes the policy shape and object kind (no run-specific values).
+func c25Shape(pol *c25Policy, kind int) string {
+	var s string
+	switch {
+	case len(pol.rep) > 0 && len(pol.ec) > 0:
+		s = "REP+EC policy"
+	case len(pol.ec) > 0:
+		s = "EC policy"
+	default:
+		s = "REP policy"
 	}
 	dup := false
 	for j := 1; j < len(pol.ec); j++ {
@@ -420,9 +436,18 @@ func c25Sig(pol *c25Policy, kind int, why string) string {
 		}
 	}
 	if dup {
-		s += " [repeated EC rule]"
+		s += ", repeated EC rule"
 	}
-	return s + " (" + c25KindName(kind) + ")"
+	if pol.initial {
+		s += ", initial policy"
+		if pol.maxRep > 0 {
+			s += " with MaxReplicas"
+		}
+		if pol.prefer {
+			s += " and PreferLocal"
+		}
+	}
+	return s + "; " + c25KindName(kind)
 }
 
 func c25AckLines(acks []c25Ack, res oid.ID, w *pvWorld) []string {
@@ -444,7 +469,7 @@ func c25AckLines(acks []c25Ack, res oid.ID, w *pvWorld) []string {
 }
 
 // c25Judge decides whether the acknowledgements allow "full success".
-func c25Judge(pol *c25Policy, kind, partRule, partIdx int, res oid.ID, acks []c25Ack) (bool, string) {
+func c25Judge(pol *c25Policy, kind, partRule, partIdx int, res oid.ID, acks []c25Ack, attempted []bool) (bool, string) {
 	nr := len(pol.rep)
 	inList := func(rule, node int) bool {
 		for _, n := range pol.lists[rule] {
@@ -498,12 +523,40 @@ func c25Judge(pol *c25Policy, kind, partRule, partIdx int, res oid.ID, acks []c2
 					miss = append(miss, strconv.Itoa(p))
 				}
 			}
-			if len(miss) > 0 {
+			// were all parts stored on distinct nodes, just not on nodes of this rule's list?
+			anyw := make([][]int, t)
+			for _, a := range acks {
+				if a.rule == j && a.parent == res && a.part >= 0 && a.part < t {
+					anyw[a.part] = append(anyw[a.part], a.node)
+				}
+			}
+			if c25Matching(anyw) {
+				rep := ""
+				for i := 0; i < j; i++ {
+					if pol.ec[i] == pol.ec[j] {
+						rep = " (the rule repeats an earlier one)"
+					}
+				}
+				ecWhy[j] = fmt.Sprintf("EC-elsewhere rule %d (%d/%d)%s: all parts were acknowledged by distinct nodes, but not by nodes of its own list %v", j, pol.ec[j][0], pol.ec[j][1], rep, pol.lists[nr+j])
+			} else if len(miss) > 0 {
 				ecWhy[j] = fmt.Sprintf("EC rule %d (%d/%d): parts %s were acknowledged by no node of its list %v", j, pol.ec[j][0], pol.ec[j][1], strings.Join(miss, ","), pol.lists[nr+j])
 			} else {
 				ecWhy[j] = fmt.Sprintf("EC rule %d (%d/%d): its parts do not sit on distinct nodes of its list %v", j, pol.ec[j][0], pol.ec[j][1], pol.lists[nr+j])
 			}
 		}
+	}
+	// diagnosis only: rule j was never even attempted and an identical earlier rule is
+	// switched off by the initial policy
+	twin := func(j int) string {
+		if !pol.initial || attempted[j] {
+			return ""
+		}
+		for i := 0; i < j; i++ {
+			if pol.ec[i] == pol.ec[j] && pol.limit(nr+i) == 0 {
+				return fmt.Sprintf("EC-twin-off (no part of EC rule %d was sent to any node; the identical rule %d is switched off by the initial policy) ", j, i)
+			}
+		}
+		return ""
 	}
 	if !pol.initial || pol.maxRep == 0 {
 		for i := 0; i < nr; i++ {
@@ -521,7 +574,7 @@ func c25Judge(pol *c25Policy, kind, partRule, partIdx int, res oid.ID, acks []c2
 					continue
 				}
 				if !ecDone[j] {
-					return false, ecWhy[j]
+					return false, twin(j) + ecWhy[j]
 				}
 			}
 		}
@@ -531,15 +584,30 @@ func c25Judge(pol *c25Policy, kind, partRule, partIdx int, res oid.ID, acks []c2
 	for i := 0; i < nr; i++ {
 		total += min(got[i], pol.limit(i))
 	}
-	if ecJudged {
-		for j := range pol.ec {
-			if ecDone[j] && pol.limit(nr+j) > 0 {
+	tw := ""
+	for j := range pol.ec {
+		if pol.limit(nr+j) == 0 {
+			continue
+		}
+		if ecJudged {
+			if ecDone[j] {
 				total++
+			} else if tw == "" {
+				tw = twin(j)
+			}
+			continue
+		}
+		// an object the node cannot encode is replicated as a whole over the EC list: the
+		// statement does not say how that counts; any acknowledgement from the list is accepted
+		for _, a := range acks {
+			if a.rule < 0 && a.id == res && inList(nr+j, a.node) {
+				total++
+				break
 			}
 		}
 	}
 	if total < pol.maxRep {
-		return false, fmt.Sprintf("total: MaxReplicas is %d, but only %d replicas / EC partitions were acknowledged within the per-rule limits (REP acknowledged per rule %v, EC rules complete %v)", pol.maxRep, total, got, ecDone)
+		return false, tw + fmt.Sprintf("total: MaxReplicas is %d, but only %d replicas / EC partitions were acknowledged within the per-rule limits (REP acknowledged per rule %v, EC rules complete %v)", pol.maxRep, total, got, ecDone)
 	}
 	return true, ""
 }
